@@ -288,6 +288,43 @@ def r19_6(ctx, rep):
         raise MechanismMissing(R, "load_model no longer reads metadata[key][row, column]")
 
 
+@SPEC.rule(
+    "R19.7",
+    "both evaluations of the metadata function in load_model take an argument of the parameter vector's shape: the vector "
+    "is veccat of the parameter SYMBOLS (one entry per scalar element), so the NaN probe must be sized from it "
+    "(repmat(np.nan, *parameter_vector.size()) / per symbol size) — one NaN per Variable is too short as soon as a "
+    "parameter is an unexpanded vector, and every cache hit then raises a shape error",
+)
+def r19_7(ctx, rep):
+    R = "R19.7"
+    ld = ctx.func(API, "load_model", R)
+    site = API + ":load_model"
+    pv = None
+    for st in walk_local(ld):
+        if isinstance(st, ast.Assign) and isinstance(st.targets[0], ast.Name) and isinstance(st.value, ast.Call) and call_name(st.value) in ("ca.veccat", "ca.vertcat") \
+                and any(isinstance(x, ast.Attribute) and x.attr == "symbol" for x in ast.walk(st.value)) and "parameters" in norm(st.value):
+            pv = st.targets[0].id
+    if pv is None:
+        raise MechanismMissing(R, "parameter vector (veccat of the parameters' symbols) not found in load_model")
+    n = 0
+    for c in ast.walk(ld):
+        if isinstance(c, ast.Call) and (call_name(c) or "").endswith("variable_metadata_function") and len(c.args) == 1:
+            n += 1
+            a = c.args[0]
+            if is_name(a, pv):
+                ok = True
+            else:
+                sized = any(isinstance(x, ast.Call) and isinstance(x.func, ast.Attribute) and x.func.attr in ("size", "numel", "size1", "shape")
+                            and (is_name(x.func.value, pv) or (isinstance(x.func.value, ast.Attribute) and x.func.value.attr == "symbol"))
+                            for x in ast.walk(a)) or any(isinstance(x, ast.Attribute) and x.attr == "shape" and is_name(x.value, pv) for x in ast.walk(a))
+                ok = sized
+            rep.ob(R, site, "argument #%d of variable_metadata_function has the parameter vector's shape" % n, ok,
+                   "`%s` is not sized from %s (or from the parameter symbols): with an unexpanded vector parameter the function is called with "
+                   "too few entries and load_model raises on every cache hit" % (norm(a)[:70], pv))
+    if n < 2:
+        raise MechanismMissing(R, "load_model no longer evaluates variable_metadata_function twice (parameter values and NaN probe)")
+
+
 # -- seeded variants ---------------------------------------------------------
 from ._mut import delete_stmt_where, replace_in_func  # noqa: E402
 
@@ -348,3 +385,15 @@ def _m6(mod):
         return False
 
     return mod if replace_in_func(mod, "save_model", edit) else None
+
+
+@SPEC.mutant("NaN probe with one entry per parameter variable", API, "R19.7", "argument #2")
+def _m_nan(mod):
+    def edit(fn):
+        for c in ast.walk(fn):
+            if isinstance(c, ast.Call) and (call_name(c) or "").endswith("variable_metadata_function") and c.args and "repmat" in norm(c.args[0]):
+                c.args[0] = ast.parse("ca.veccat(*[np.nan for v in model.parameters])", mode="eval").body
+                return True
+        return False
+
+    return mod if replace_in_func(mod, "load_model", edit) else None
